@@ -152,7 +152,7 @@ pub fn get_reader(path: &str) -> Result<BufReader<Box<dyn Read + Sync + Send>>, 
         #[cfg(kmertools_verif)]
         let file = verif_rt::io::SimRead::new(file, path);
         if is_zip {
-            let decoder = flate2::read::GzDecoder::new(file);
+            let decoder = flate2::read::MultiGzDecoder::new(file);
             Ok(BufReader::new(Box::new(decoder)))
         } else {
             Ok(BufReader::new(Box::new(file)))
